@@ -91,3 +91,12 @@ Definition setup_user_system (d : dim) (n : nat) (root : ctree) (ccs : list cc) 
 
 (* the tag of variable index k in the run-time layout *)
 Definition tag_at (l : list vtag) (k : nat) : option vtag := nth_error l k.
+
+(* fixed-rectangle clusters (RectangularCluster(rectIndex)): their boundary variables are created and numbered exactly like those
+   of any other cluster (colafd.cpp:429-452, Cluster::createVars), so `ctree` needs no flag; `fixed` lists them as
+   (cluster id, rectangle index).  recGenerateClusterVariablesAndConstraints calls generateFixedRectangleConstraints right
+   after numbering the cluster (colafd.cpp:454-459): the idle SeparationConstraints store clusterVarId like the containment
+   constraints do.  Per fixed cluster: the separation constraints of dimension d generated from the STORED id. *)
+Definition fixed_rect_constraints (d : dim) (n : nat) (root : ctree) (fixed : list (nat * nat)) (rects : list rect)
+  : list (nat * list sepc) :=
+  map (fun cr => (fst cr, gen_fixed_rect d (stored_id n root (fst cr)) (snd cr) rects)) fixed.
